@@ -25,8 +25,27 @@ NOT_DECIDED = [
 NUMQ = ["BangSingle", "HashDouble", "PercentInteger", "AmpersandLong"]
 
 
+def _self_normalising_ops(prog, T):
+    """operators whose lowering pushes Cast(q) right after the operator's instruction with q taken
+    from the BinaryExpression's own static type (field 3, BuiltIn.0): whatever tag the handler
+    produced, the value continues with the static type."""
+    gfn, gtab = T.generator_operator_table()
+    evs = emit.events(prog, gfn)
+    from_own_type = False
+    for e in evs.values():
+        if e.kind == "push" and e.instr == "Cast" and e.payload:
+            o = e.payload[0]
+            if mir.origin_mentions(o, lambda x: x[0] == "field" and len(x) > 4 and x[2] == "3"
+                                   and x[4] == "BinaryExpression"):
+                from_own_type = True
+    if not from_own_type:
+        return set()
+    return {op for op, instrs in gtab.items() if instrs and instrs[-1] == "Cast" and instrs[0] == op}
+
+
 def r1_static_vs_dynamic(ctx, T, rule="C06.R1"):
     prog = ctx.prog
+    normalised = _self_normalising_ops(prog, T)
     q2t = T.qualifier_tags()
     one, htab = T.handler_table()
     ops = prog.variants(ot.OP)
@@ -51,6 +70,10 @@ def r1_static_vs_dynamic(ctx, T, rule="C06.R1"):
                     continue
                 want = q2t[next(iter(st))]
                 bad = [t for t in tags if t != want]
+                if op in normalised:
+                    ctx.ok(rule, key, sfn.loc, "the lowering converts the handler's result (%s) to the static "
+                           "type %s with Cast" % (tags, want))
+                    continue
                 ctx.decide(not bad, rule, key, sfn.loc, "static %s = dynamic %s" % (want, tags),
                            "the checker types `%s %s %s` as %s (so no Cast is emitted when the target "
                            "has that type) but the VM's handler can produce %s: a value of another "
